@@ -1,0 +1,21 @@
+//go:build verif
+
+package bip340
+
+// Contracts for the deductive checker in /verif (comment-only; compiled only under the verif tag).
+// Point operations (ScalarBaseMul, ScalarMul, Sub, AffineX, AffineY, ...) are deterministic functions of their
+// arguments.
+
+// Standard BIP-340 verification (no challenge key configured) accepts only if: key and signature components are
+// present, non-zero, the key is a non-identity torsion-free point; with P = lift_x(pk) and the challenge e
+// RECOMPUTED from (r, P, message), the point R' = s*G - e*P is not the identity, has even y, and x(R') == x(r).
+//@ func (*Verifier).Verify
+//@   property C15, C01
+//@   purefn
+//@   let P = LiftX(publicKey.Value())
+//@   let e = res(v.variant.ComputeChallenge(signature.R, P, message), 0)
+//@   let R = k256.NewCurve().ScalarBaseMul(signature.S).Sub(P.ScalarMul(e))
+//@   ensures result == nil ==> publicKey != nil && signature != nil && signature.R != nil && signature.S != nil && !signature.S.IsZero() && !signature.R.IsZero()
+//@   ensures result == nil ==> !publicKey.Value().IsOpIdentity() && publicKey.Value().IsTorsionFree()
+//@   ensures (result == nil && v.challengePublicKey == nil) ==> res(v.variant.ComputeChallenge(signature.R, P, message), 1) == nil
+//@   ensures (result == nil && v.challengePublicKey == nil) ==> !R.IsZero() && !res(R.AffineY(), 0).IsOdd() && res(signature.R.AffineX(), 0).Equal(res(R.AffineX(), 0))
